@@ -104,6 +104,23 @@ def run(ctx: Ctx):
                     parsed[k.value] = ("?", "?")
                 else:
                     parsed[k.value] = srcs[0]
+    # item stores into the row being restored (`entry["lr"] = float(row["lr"])`, also what an unrolled `for key in (...)` leaves)
+    row_names = set()
+    for n in own_nodes(cache.node):
+        if isinstance(n, ast.Assign) and isinstance(n.value, ast.Dict) and any(isinstance(k, ast.Constant) and k.value == "epoch" for k in n.value.keys) \
+                and not any(isinstance(v, ast.Constant) and v.value == 0 for k, v in zip(n.value.keys, n.value.values) if isinstance(k, ast.Constant) and k.value == "epoch"):
+            row_names |= {t_.id for t_ in n.targets if isinstance(t_, ast.Name)}
+    for n in own_nodes(cache.node):
+        if isinstance(n, ast.Assign) and len(n.targets) == 1 and isinstance(n.targets[0], ast.Subscript) and isinstance(n.targets[0].slice, ast.Constant) \
+                and isinstance(n.targets[0].slice.value, str) and (u(n.targets[0].value) in row_names):
+            k_ = n.targets[0].slice.value
+            der = rd_cache.derives(n.value)
+            srcs = [(call_name(c), s_.slice.value) for c in list(der.calls()) + [c_ for c_ in ast.walk(n.value) if isinstance(c_, ast.Call)]
+                    if call_name(c) in ("int", "float", "str")
+                    for s_ in ast.walk(c) if isinstance(s_, ast.Subscript) and isinstance(s_.slice, ast.Constant) and isinstance(s_.slice.value, str)]
+            srcs = sorted(set(srcs))
+            if k_ not in parsed:
+                parsed[k_] = srcs[0] if len(srcs) == 1 else ("?", "?")
     if not parsed or seed_keys is None:
         raise AnalysisError("C15: parser dict / epoch-0 row of update_cache not found")
     for k in sorted(cols | set(parsed)):
